@@ -34,7 +34,7 @@ PROP_MODULES = {
 # property -> theorem names (in namespace Tramp) = the proof obligations
 OBLIGATIONS = {
     "C18": [
-        "c18_total_fromBytes", "c18_total_tryFrom", "c18_decode_encode", "c18_encode_decode",
+        "c18_total_fromBytes", "c18_total_tryFrom", "c18_decode_encode", "c18_encode_decode", "c18_encode_injective",
         "c18_tu64_value", "c18_tu64_reject", "c18_bigsize_roundtrip", "c18_pinned_counterexample",
     ],
     "C12": [
